@@ -155,7 +155,7 @@ impl<'tcx> Ex<'tcx> {
                                 }
                             }
                         }
-                        ty::Closure(did, _) => {
+                        ty::Closure(did, _) | ty::Coroutine(did, _) => {
                             if let Some(ldid) = did.as_local() {
                                 let caps = self.tcx.closure_captures(ldid);
                                 if idx.as_usize() < caps.len() {
